@@ -235,10 +235,26 @@ def _lrepr_bool(o: bool, **_) -> str:
     return repr(o).lower()
 
 
+_BYTES_ESCAPES = {
+    ord('"'): '\\"',
+    ord("\\"): "\\\\",
+    ord("\n"): "\\n",
+    ord("\r"): "\\r",
+    ord("\t"): "\\t",
+}
+
+
 @lrepr.register(bytes)
 def _lrepr_bytes(o: bytes, **_) -> str:
-    v = repr(o)
-    return f'#b "{v[2:-1]}"'
+    chars = []
+    for b in o:
+        if (escaped := _BYTES_ESCAPES.get(b)) is not None:
+            chars.append(escaped)
+        elif 32 <= b < 127:
+            chars.append(chr(b))
+        else:
+            chars.append(f"\\x{b:02x}")
+    return f'#b "{"".join(chars)}"'
 
 
 @lrepr.register(type(None))
